@@ -1,0 +1,51 @@
+//go:build verif
+
+// Contracts for the deductive verifier under /verif (govc). Comment-only file: it adds no code and is
+// compiled only with the build tag "verif".
+
+package jsoac
+
+// Ownership (C10): bytes handed to the caller must not live in a backing array of the buffer-pool
+// subsystem (the array of any buffer that ever came out of a sync.Pool: the pool hands that buffer to
+// somebody else afterwards, who overwrites the array).
+//@ pred notPooled(r []byte) := r.arr != 0 ==> !pool_array(r.arr)
+
+//@ func (Enum).MarshalJSON
+//@   property C10 C02
+//@   requires forall i :: 0 <= i && i < len(e.list) ==> len(e.list[i]) >= 0
+//@   modifies pool_state()
+//@   ensures result1 == nil ==> notPooled(result0)
+//@   no_panic
+//@   loop#1 invariant -1 <= rangeindex && rangeindex < len(e.list) && b != nil && pool_buffer(b)
+//@   loop#1 decreases len(e.list) - rangeindex
+
+//@ func (Ref).MarshalJSON
+//@   property C10
+//@   trusted delegates to encoding/json and to UserType.MarshalJSON; assumed to return bytes outside the pool subsystem and to leave byte arrays outside it alone
+//@   modifies pool_state()
+//@   ensures result1 == nil ==> notPooled(result0)
+//@   no_panic
+
+//@ func (AllOf).MarshalJSON
+//@   property C10 C02
+//@   modifies pool_state()
+//@   ensures result1 == nil ==> notPooled(result0)
+//@   no_panic
+//@   loop#1 invariant -1 <= rangeindex && rangeindex < len(a.userTypeNames) && b != nil && pool_buffer(b)
+//@   loop#1 decreases len(a.userTypeNames) - rangeindex
+
+//@ func (ArrayItems).MarshalJSON
+//@   property C10 C02
+//@   modifies pool_state()
+//@   ensures result1 == nil ==> notPooled(result0)
+//@   no_panic
+//@   loop#1 invariant -1 <= rangeindex && rangeindex < len(ai.items) && b != nil && pool_buffer(b)
+//@   loop#1 decreases len(ai.items) - rangeindex
+
+//@ func (ObjectProperties).MarshalJSON
+//@   property C10 C02
+//@   modifies pool_state()
+//@   ensures result1 == nil ==> notPooled(result0)
+//@   no_panic
+//@   loop#1 invariant -1 <= rangeindex && rangeindex < len(op.properties) && b != nil && pool_buffer(b)
+//@   loop#1 decreases len(op.properties) - rangeindex
